@@ -34,12 +34,15 @@ def contents():
     return CONTENT
 
 
+# a quality floor pngquant cannot reach on gradient artwork: it exits 99 and the wrapper step falls back to the unquantised bitmap
+PQ_STRICT = "--speed 1 --skip-if-larger --quality 100-100"
 FILES = {"A": "emoji_ue000.svg", "B": "emoji_ue001.svg", "C": "emoji_ue003.svg"}
 DEFAULT_OPTS = {"color_format": "glyf_colr_1"}
 EVENTS = [
     ["add", "C"], ["remove", "B"], ["modify", "A"], ["touch", "A"], ["rename", "A", "C"], ["rename", "A", "B"],
     ["opt", "color_format", "picosvg"], ["opt", "color_format", "cbdt"], ["opt", "metrics", "1000,800,-200"], ["opt", "reuse_tolerance", -1],
     ["opt", "clip_to_viewbox", False], ["opt", "clipbox_quantization", 64], ["opt", "bitmap_resolution", 64], ["opt", "use_pngquant", False],
+    ["opt", "use_zopflipng", False], ["opt", "pngquant_flags", PQ_STRICT],
 ]
 VECTOR_NODES = ["picosvg", "write_glyphmap", "write_fea", "write_part_file", "write_combined_part_files", "write_font"]
 BITMAP_NODES = ["resvg", "pngquant", "pngquant-bin", "zopfli"]  # pngquant = the Python wrapper step, pngquant-bin = the executable it runs
@@ -96,7 +99,7 @@ def apply_event(state_dir, srcs, opts, ev):
     elif kind == "opt":
         if opts.get(ev[1], None) == ev[2]:
             return None
-        if ev[1] in ("bitmap_resolution", "use_pngquant") and opts.get("color_format") != "cbdt":
+        if ev[1] in ("bitmap_resolution", "use_pngquant", "use_zopflipng", "pngquant_flags") and opts.get("color_format") != "cbdt":
             return None
         opts[ev[1]] = ev[2]
     return srcs, opts
@@ -336,6 +339,12 @@ def run(report, tier, only=None):
                         for mode in MODES:
                             counter[0] += 1
                             cases.append({"root": str(root), "parent": st["dir"], "id": f"n{counter[0]}", "srcs": st["srcs"], "opts": st["opts"], "event": ["modify", "A"], "fault": [node, mode], "history": st["history"]})
+                    # ... and after an option change that re-runs a middle step of the chain only (the bitmaps are not rendered again):
+                    # what the later steps find is decided by file times alone
+                    for node in ("pngquant", "zopfli"):
+                        for mode in MODES:
+                            counter[0] += 1
+                            cases.append({"root": str(root), "parent": st["dir"], "id": f"n{counter[0]}", "srcs": st["srcs"], "opts": st["opts"], "event": ["opt", "pngquant_flags", PQ_STRICT], "fault": [node, mode], "history": st["history"]})
             results = pool.run_cases(transition, cases, timeout=1500, seed=report.seed, jobs=8, chunksize=1)
             nxt = []
             for c, vs in zip(cases, results):
